@@ -1923,7 +1923,8 @@ class UTPM(Ring, RawAlgorithmsMixIn):
         N = numpy.size(x)
         Gamma, rays = exint.generate_Gamma_and_rays(N,d)
 
-        data = numpy.zeros(numpy.hstack([d+1,rays.shape]))
+        # keep the type of the point (complex, longdouble) as the other init_* drivers do
+        data = numpy.zeros(numpy.hstack([d+1,rays.shape]), dtype=numpy.result_type(x.dtype, rays.dtype))
         data[0] = x
         data[1] = rays
         return cls(data)
